@@ -238,7 +238,7 @@ PROPS["C05"] = {
                 "OrderBookL2Manager::run (async, RwLock)"],
     "assumptions": ["venue contract: a Snapshot event carries distinct prices with non-zero amounts (the constructor sorts but does not de-duplicate)"],
     "tiers": {
-        "quick": {"filters": ["c05_q_", "c05_twin_"], "jobs": 5, "harness_timeout_s": 1200, "total_timeout_s": 3000, "mem_gb": 12},
+        "quick": {"filters": ["c05_q_", "c05_twin_"], "jobs": 5, "harness_timeout_s": 700, "total_timeout_s": 3000, "mem_gb": 12},
         "thorough": {"filters": ["c05_"], "jobs": 12, "harness_timeout_s": 3000, "total_timeout_s": 9000, "mem_gb": 10},
     },
 }
@@ -294,6 +294,7 @@ PROPS["C03"] = {
     "hook": True,
     "functions": [
         "barter::engine::action::send_requests::SendRequests::send_request for Engine<(), Recorder, Links, Script, Gate> (harness types for state / links / strategy / risk)",
+        "barter::engine::execution_tx::MultiExchangeTxMap::<RecordingTx>::{from_iter, find} (the real link table, with a link-less exchange in front)",
         "barter::engine::state::order::in_flight_recorder::InFlightRequestRecorder for EngineState::{record_in_flight_opens, record_in_flight_open} "
         "+ InstrumentStates::instrument_index_mut + Orders::record_in_flight_open",
     ],
@@ -315,8 +316,10 @@ PROPS["C03"] = {
 }
 
 PROPS["C19"] = {
-    "hook": False,
+    "hook": True,
     "functions": [
+        "barter::engine::state::order::Orders::record_in_flight_cancel - the five C01 cells 'cancel request sent' on every pre-state kind (a sent cancel makes "
+        "the order cancel-in-flight, which is what makes a repeated cancel command request nothing new)",
         "barter_execution::order::Order::<ExchangeIndex, InstrumentIndex, ActiveOrderState>::to_request_cancel",
         "barter::strategy::close_positions::build_ioc_market_order_to_close_position",
     ],
@@ -332,8 +335,9 @@ PROPS["C19"] = {
                 ],
     "assumptions": [],
     "tiers": {
-        "quick": {"filters": ["c19_q_", "c19_twin_"], "jobs": 6, "harness_timeout_s": 900, "total_timeout_s": 2400},
-        "thorough": {"filters": ["c19_"], "jobs": 6, "harness_timeout_s": 3000, "total_timeout_s": 9000},
+        "quick": {"filters": ["c19_q_", "c19_twin_", "c01_q_untracked_cancel_request", "c01_q_oif_cancel_request", "c01_q_open_cancel_request",
+                              "c01_q_cifn_cancel_request", "c01_q_cifs_cancel_request"], "jobs": 11, "harness_timeout_s": 900, "total_timeout_s": 2400, "mem_gb": 8},
+        "thorough": {"filters": ["c19_", "_cancel_request"], "jobs": 14, "harness_timeout_s": 3000, "total_timeout_s": 9000, "mem_gb": 8},
     },
 }
 
